@@ -439,6 +439,10 @@ pub fn plan(p: u32, tier: &str) -> Vec<Run> {
             add(s3(true), families::slots(3));
             add(s4(false), families::slots(4));
             add(s4d2ff(), families::slots(4));
+            // runs of Ephemerals below an Always consumer, three declaration orders
+            let mut ea = late("ephchainsA-orders-few", true);
+            ea.orders = Orders::Few;
+            add(ea, families::eph_chains_below_always());
             add(split("split-O", true), families::split_outputs(Kind::O, false));
             add(split("split-E", true), families::split_outputs(Kind::E, false));
             // a job id re-declared with another kind between evaluations (robustness only: a kind change is a
@@ -707,6 +711,9 @@ pub fn plan(p: u32, tier: &str) -> Vec<Run> {
         12 => {
             add(s3(true), families::slots(3));
             add(s4(true), families::slots(4));
+            let mut ea = late("ephchainsA+follow", false);
+            ea.follow = true;
+            add(ea, families::with_declaration_variants(families::eph_chains_below_always()));
             add(late3f(), families::late3x_oe());
             add(alone4(), families::slots_each_alone(4));
             add(split("split-O", true), families::split_outputs(Kind::O, false));
@@ -825,6 +832,7 @@ pub fn plan(p: u32, tier: &str) -> Vec<Run> {
             add(few(late("latepair-ff-orders-few", false)), families::late_pair());
             add(few(late("bigshapes-ff-orders-few", false)), families::big_shapes());
             add(few(late("ephtrees-ff-orders-few", false)), families::eph_trees());
+            add(few(late("ephchainsA-ff-orders-few", false)), families::eph_chains_below_always());
             add(few(late("ephtrees3-ff-orders-few", false)), families::eph_trees3());
             add(few(chains(false)), families::chains(6));
             let mut cm = few(chains(false));
@@ -1354,6 +1362,7 @@ pub fn cmd_run(args: &[String]) -> i32 {
         "late3x-OE" => families::late3x_oe(),
         "bigshapes" => families::big_shapes(),
         "latepair" => families::late_pair(),
+        "ephchainsA" => families::eph_chains_below_always(),
         "ephtrees" => families::eph_trees(),
         "ephtrees3" => families::eph_trees3(),
         "chainsm2" => families::chains_multi(2, 3),
